@@ -123,7 +123,7 @@ def group_runs(g, tier):
                 k += 1
                 heavy = ('phys' in c1) + ('phys' in c2)
                 runs.append(dict(kind='tree2', cfg1=c1, cfg2=c2, names=['ascii', 'prefix', 'dotted', 'multi'][k % 4], b=[1, 1, 4096, 8193][k % 4] if q else [1, 2731, 8193, 21846][k % 4],
-                                 frac=(0.004 if heavy else 0.008) if q else 0.25, inst='MC_Tree2_q', tspec='Trace_Tree2'))
+                                 frac=(0.004 if heavy else 0.008) if q else (0.04 if heavy else 0.10), inst='MC_Tree2_q', tspec='Trace_Tree2'))
         return runs
     if g == 'async':
         k = 1 if q else 20
